@@ -42,7 +42,7 @@ for (const [k, base, src] of [['mvNN', 'mv', 'mv!'], ['mvParen', 'mv', '(mv)'], 
 }
 const cellOf = (t) => TARGETS[t].cell || (t === 'ok' ? 'op' : t);
 const CELLS = ['mv', 'op', 'arr0']; // distinct storage cells (o.p and o[kk] are the same one)
-const ARGS = { none: {}, ns: { name: () => 'arg' }, arrStr: { arr: "'arg'", name: () => 'arg' }, arrStr2: { arr: "'second-name'", name: () => 'second-name' }, arrDyn: { arr: 'dyn', name: (e) => e.bound.dyn, computed: true } };
+const ARGS = { none: {}, arrOnly: { only: true }, ns: { name: () => 'arg' }, arrStr: { arr: "'arg'", name: () => 'arg' }, arrStr2: { arr: "'second-name'", name: () => 'second-name' }, arrDyn: { arr: 'dyn', name: (e) => e.bound.dyn, computed: true } };
 const MODFORMS = { none: { mods: [] }, suffix1: { suffix: ['trim'], mods: ['trim'] }, suffix2: { suffix: ['a', 'b'], mods: ['a', 'b'] }, arr: { arr: ['trim'], mods: ['trim'] }, arr2: { arr: ['lazy', 'a-b'], mods: ['lazy', 'a-b'] } };
 
 function modelAttr(m) {
@@ -53,7 +53,7 @@ function modelAttr(m) {
 function modelValueSrc(m) {
   const a = ARGS[m.arg], mf = MODFORMS[m.mod];
   const t = TARGETS[m.target].src;
-  if (a.arr || mf.arr || m.forceArray) {
+  if (a.arr || mf.arr || m.forceArray || a.only) {
     const parts = [t];
     if (a.arr) parts.push(a.arr);
     if (mf.arr) parts.push('[' + mf.arr.map((x) => `'${x}'`).join(', ') + ']');
